@@ -90,8 +90,8 @@ Proof. exact c19_history_only_by. Qed.
    section 7): six successful messages, no grant by another module, after which bridge 1 lists
    the channel, its challenger is account 2 (installed by governance), and the admin is
    account 3 (chosen by the replaced challenger through its own bridge 2).
-     Theorem C19_strong_no_capture : forall c h, no_adminset h ->
-       admin_follows_challenger c (run c init_state h).1.        (does not hold) *)
+     the full statement  [forall c h, no_adminset h ->
+       admin_follows_challenger c (run c init_state h).1]  does not hold. *)
 Theorem C19_strong_no_capture_refuted :
   ∃ c h, no_adminset h ∧ all_ok (run c init_state h).2 ∧
          ¬ admin_follows_challenger c (run c init_state h).1.
